@@ -595,7 +595,7 @@ def judge(w, op, opname, inside, shape_mode, st, sub):
         fail(ctx, f"C07/{opname}/scenario-content", f"after {op}: scenario holds {st['statics']} + {st['dynamics']}, expected {sorted(inside)}", sub)
     for l, reg in st["sreg"].items():
         want = sorted(i for i in st["statics"] if int(l) in (st["fwd"][str(i)]["is"] or []))
-        if reg != want:
+        if reg != want and w.first(("rs", l, tuple(reg), tuple(want))):
             fail(ctx, f"C07/{opname}/registry-not-inverse/static",
                      f"after {op}: lanelet {l} lists static obstacles {reg}; static obstacles whose shape set holds {l}: {want}", sub)
     for l, reg in st["dreg"].items():
@@ -611,7 +611,7 @@ def judge(w, op, opname, inside, shape_mode, st, sub):
                     rec |= set(f["ps"].get(str(t), []))
                 if int(l) in rec:
                     want.append(i)
-            if reg.get(str(t), []) != sorted(want):
+            if reg.get(str(t), []) != sorted(want) and w.first(("rd", l, t, tuple(reg.get(str(t), [])), tuple(sorted(want)))):
                 fail(ctx, f"C07/{opname}/registry-not-inverse/dynamic",
                          f"after {op}: lanelet {l} lists dynamic obstacles {reg.get(str(t), [])} at time step {t}; dynamic obstacles "
                          f"whose shape set at {t} holds {l}: {sorted(want)}", sub)
@@ -716,7 +716,7 @@ def tag_case(ctx, w, case):
 def run(ctx):
     for p in sorted(glob.glob(os.path.join(CORPUS_DIR, "C07", "*.json"))):
         run_case(ctx, json.load(open(p)))
-    for _ in range(ctx.n(140)):
+    for _ in range(ctx.n(400)):
         run_case(ctx, gen_case(ctx))
 
 
@@ -724,6 +724,8 @@ search = run
 
 
 def replay(ctx, case):
+    import warnings
+    warnings.filterwarnings("ignore")
     run_case(ctx, case, tags=False)
 
 
